@@ -680,10 +680,11 @@ impl FilterBodyAction {
     //@| opt r6:0
     //@| attr #[verifier::loop_isolation(false)]
     //@| ensures r matches Ok(out) ==> end_fold(old(self).chain@, old(self).chain@.len() as int) == Some(out@),
+    //@|     final(self).in_error == old(self).in_error,
     //@| entry broadcast use axiom_iter_seq_vec;
     //@| forlabel 0: it
-    //@| loopbefore 0: let ghost c0 = self.chain@;
-    //@| loop 0: invariant it.snapshot@.remaining().len() == c0.len(),
+    //@| loopbefore 0: let ghost c0 = self.chain@; let ghost e0 = self.in_error;
+    //@| loop 0: invariant it.snapshot@.remaining().len() == c0.len(), self.in_error == e0,
     //@|         forall|i: int| 0 <= i < c0.len() ==> *#[trigger] it.snapshot@.remaining()[i] == c0[i],
     //@|         iter_ok(it.history@, it.index@, it.snapshot@.remaining(), it.snapshot@.remaining()),
     //@|         end_fold(c0, it.index@ as int) == Some(opt_bytes(data)), data matches Some(v) ==> v@.len() > 0,
@@ -693,6 +694,12 @@ impl FilterBodyAction {
     //@| ensures old(self).in_error ==> r@ == data@ && final(self).in_error,
     //@|     // switching to pass-through must not drop what an earlier chunk left held back
     //@|     !old(self).in_error && final(self).in_error ==> r@ == chain_held(old(self).chain@) + data@,
+
+    // the public end(): pass-through mode yields nothing more; otherwise the flush of the whole chain (do_end's fold), and an error switches to pass-through
+    //@@ fn src/filter/filter_body.rs :: impl FilterBodyAction / fn end -> r
+    //@| ensures old(self).in_error ==> r@.len() == 0 && final(self).in_error,
+    //@|     !old(self).in_error && !final(self).in_error ==> end_fold(old(self).chain@, old(self).chain@.len() as int) == Some(r@),
+    //@|     !old(self).in_error && final(self).in_error ==> r@.len() == 0,
 
     // shape of the chain (C14): no inner stage -> empty; encoding absent -> inner stages; supported encoding -> Decode ++ inner ++ Encode of
     // that encoding; unsupported encoding -> EMPTY chain (filtering disabled, body passes through)
